@@ -20,7 +20,7 @@ var c03Universe = kit.EntUniverse{
 	IDs:     []string{"e1", "e2", "e3", "e4", "e5"},
 	Names:   []string{"a", "b", "c", "d", "e", "a", ""},
 	Aliases: []*string{nil, kit.Sp("x"), kit.Sp("y"), kit.Sp(""), nil, kit.Sp("x")},
-	Roles:   []string{"r1", "r2", "a", "ab", "b", "bc", "c"},
+	Roles:   []string{"r1", "r2", "R1", "a", "ab", "b", "bc", "c"}, // two of them differ only in letter case
 	Notes:   []string{"", "n1", "n2"},
 	Fields:  []string{kit.FName, kit.FAlias, kit.FRoles, kit.FNote},
 	Hostile: true,
